@@ -275,6 +275,38 @@ def check(ctx):
                 ctx.violation("prefix-dup:%s/%s" % (p.name_prefix, p.symbol_prefix), p.name_prefix,
                               "one multiplier per prefix spelling", "%s vs %s" % (pmult(p), pmult(p2)), "ka.units.PREFIXES")
 
+    # currency units: the definition of a currency unit's size is its row of the rate table (base rate / own rate), and the
+    # sign aliases ($ € £ ¥) are further spellings of their currency: "one and the same meaning"
+    try:
+        rows = {}
+        for c in U.CURRENCY_DATA:
+            rows.setdefault(c.symbol, c.dollar_rate)
+        base_rate = rows.get(U.BASE_CURRENCY)
+    except Exception:  # noqa
+        rows, base_rate = {}, None
+    if base_rate:
+        for code, rate in rows.items():
+            if not (rate > 0) or rate != rate or rate == float("inf"):
+                continue
+            u = U.SYMBOL_TO_UNIT.get(code)
+            if u is None or "cash" not in u.quantities:
+                continue                      # the code clashes with a physical unit: not registered (C20's subject)
+            ctx.count("cash-size:" + code, bucket="currency-sizes")
+            want = Fraction(base_rate) / Fraction(rate)
+            if not close(Fraction(u.multiple), want, Fraction(1, 10**12)):
+                ctx.violation("size:%s" % code, code, "table rate of the base / table rate of %s = %r" % (code, float(want)), repr(u.multiple),
+                              "ka.units.SYMBOL_TO_UNIT[%r].multiple" % code)
+            sign = getattr(U, "SPECIAL_CURRENCY_SYMBOLS", {}).get(code)
+            su = U.SYMBOL_TO_UNIT.get(sign) if sign else None
+            if su is not None and "cash" in su.quantities:
+                ctx.count("cash-sign:" + sign, bucket="currency-sizes")
+                for w in [sign] + ["k" + sign, "M" + sign]:
+                    r_ = R.value("1 %s to %s" % (w, code))
+                    wantv = {"k": 1000, "M": 10**6}.get(w[0], 1) if w != sign else 1
+                    okv = r_[0] == "ok" and close(Fraction(r_[1].mag if hasattr(r_[1], "mag") else r_[1]), Fraction(wantv), Fraction(1, 10**9))
+                    if not okv:
+                        ctx.violation("alias:%s" % w, "1 %s to %s" % (w, code), str(wantv), repr(r_)[:100], "execute('1 %s to %s')" % (w, code))
+
     # dimensions, sizes, offsets against the reference
     nb = len(U.BASE_UNITS)
     if list(U.BASE_UNITS[:7]) != ref["si_base"]:
